@@ -196,6 +196,37 @@ pub fn gen_case(seed: u64, hist: u64) -> SchedCase {
     SchedCase { hist: h, sched, faults, reader_steps: vec![], gate_acks: r.chance(1, 3) }
 }
 
+/// One flush that carries several MiB: 10-40 appends of 300 kB are journalled with the worker idle, then a single
+/// flush(callback). The same soundness rule applies at its acknowledgement (however the store hands that much to the
+/// worker, everything journalled before the call must be written and synced when the callback says Ok).
+pub fn big_flush_case(seed: u64) -> SchedCase {
+    use crate::genr::{Expect, Step};
+    use crate::store::{CfgSpec, Op};
+    let mut r = Rng::new(seed);
+    let n = r.range(10, 40);
+    let mut steps = vec![];
+    steps.push(Step { op: Op::Vote((1, 1)), expect: Expect::Accept });
+    steps.push(Step { op: Op::Sync, expect: Expect::Accept });
+    for i in 0..n {
+        let mut p = format!("bigflush{}:", i);
+        let target = *r.pick(&[300_000usize, 300_000, 120_000, 500_000]);
+        while p.len() < target {
+            p.push((b'a' + (i % 26) as u8) as char);
+        }
+        steps.push(Step { op: Op::Append(vec![((1, i), p)]), expect: Expect::Accept });
+    }
+    steps.push(Step { op: Op::Flush { cb: true }, expect: Expect::Accept });
+    steps.push(Step { op: Op::Commit((1, n - 1)), expect: Expect::Accept });
+    steps.push(Step { op: Op::Sync, expect: Expect::Accept });
+    let cfg = CfgSpec { max_records: Some(*r.pick(&[1000usize, 7])), read_buf: Some(4096), ..Default::default() };
+    let hist = seq::HistCase { seed, hist: 8_000_000, cfg, steps, tags: vec!["big_flush".into()], plan: "C04".into(), create_fault: None };
+    // the worker runs freely to idle after every step except that it is looked at one call at a time after the big flush
+    let mut sched: Vec<u8> = vec![sched::DRAIN; hist.steps.len()];
+    let fl = hist.steps.len() - 3;
+    sched[fl] = *r.pick(&[1u8, 2, 3, sched::DRAIN]);
+    SchedCase { hist, sched, faults: vec![], reader_steps: vec![], gate_acks: r.chance(1, 2) }
+}
+
 pub fn run_one(case: &SchedCase, stats: &mut C04Stats) -> Result<(RunRec, Vec<Viol>), RunErr> {
     let dir = util::fresh_dir("c04");
     let res = sched::run(case, &mut NoObserver, &dir);
@@ -256,6 +287,28 @@ pub fn run_shard(ctx: &mut Ctx) {
         }
     }
     ctx.end_phase();
+    // single flushes of several MiB
+    {
+        let n = if ctx.tier == Tier::Quick { 2 } else { 40 };
+        ctx.begin_phase(0.3);
+        for _ in 0..n {
+            if !ctx.time_left() {
+                break;
+            }
+            let case = big_flush_case(r.next());
+            match run_one(&case, &mut stats) {
+                Ok((_, viols)) => {
+                    ctx.out.count("flushes_of_several_MiB_checked", 1);
+                    for vi in viols {
+                        ctx.out.viol(vi);
+                    }
+                }
+                Err(RunErr::Viol(vi)) => ctx.out.viol(vi),
+                Err(RunErr::Inconclusive(s)) => ctx.out.inconclusive.push(s),
+            }
+        }
+        ctx.end_phase();
+    }
     // the worker's largest possible batch: a full request queue behind a parked worker
     {
         let n = if ctx.tier == Tier::Quick { 2 } else { 30 };
